@@ -217,20 +217,59 @@ pub fn wide(bits: usize, alphabet: &[u64], with_p: bool, extra: &[u64]) -> (Vec<
     (finish(v), desc)
 }
 
-/// Cap a universe to at most `n` elements by keeping an evenly spaced subset that always
-/// contains the first and last element (used to keep products of wide universes enumerable;
-/// the evidence records the reduced size).
-pub fn thin(v: Vec<Limbs>, n: usize) -> Vec<Limbs> {
-    if v.len() <= n || n < 2 {
-        return v;
+/// The richest standard universe of a width whose size is at most `budget`. Candidates, richest
+/// first: L(B;A8)+R+P, L(B;A5)+R+P, L(B;A4)+R+P, L(B;A3)+R+P, R+P, R(few ys)+P', P', where P' keeps
+/// only the exponents k around multiples of 64, BITS/2 and BITS. The choice depends only on
+/// (bits, budget): it is a deterministic, completely enumerated set.
+pub fn pick(bits: usize, budget: usize, extra: &[u64]) -> (Vec<Limbs>, String) {
+    if bits <= 20 && (1usize << bits) <= budget {
+        return (small_all(bits), format!("S({bits})"));
     }
-    let len = v.len();
-    let mut out = Vec::with_capacity(n);
-    for i in 0..n {
-        out.push(v[i * (len - 1) / (n - 1)].clone());
+    for al in [A8, A5, A4, A3] {
+        if let Some(v) = limb_product(bits, al) {
+            if v.len() <= budget {
+                let (v, d) = wide(bits, al, true, extra);
+                if v.len() <= budget {
+                    return (v, d);
+                }
+                let (v, d) = wide(bits, al, true, &[]);
+                if v.len() <= budget {
+                    return (v, d);
+                }
+            }
+        }
     }
-    out.dedup();
-    out
+    let mut v = runs(bits, RUN_YS);
+    v.extend(pow2_nbhd(bits));
+    let v = finish(v);
+    if v.len() <= budget {
+        return (v, format!("R({bits})+P"));
+    }
+    let mut v = runs(bits, &[0, 1, 1 << 63, u64::MAX]);
+    v.extend(pow2_sparse(bits));
+    let v = finish(v);
+    if v.len() <= budget {
+        return (v, format!("R({bits};4 ys)+P'"));
+    }
+    (pow2_sparse(bits), format!("P'({bits})"))
+}
+
+/// P'(B): 2^k + d for k within 1 of a multiple of 64, of BITS/2, or of BITS, and k <= 2.
+pub fn pow2_sparse(bits: usize) -> Vec<Limbs> {
+    let m = pow2(bits);
+    let mut out = vec![to_limbs(&BigUint::zero(), bits)];
+    for k in 0..=bits {
+        let near = |x: usize| k + 1 >= x && k <= x + 1;
+        if k <= 2 || near(bits) || near(bits / 2) || (0..=bits / 64).any(|j| near(64 * j)) {
+            let p = pow2(k);
+            for v in [&p - 1u32, p.clone(), &p + 1u32] {
+                if v < m {
+                    out.push(to_limbs(&v, bits));
+                }
+            }
+        }
+    }
+    finish(out)
 }
 
 pub fn max_limbs(bits: usize) -> Limbs {
